@@ -46,12 +46,12 @@ META = dict(
                  'html output embeds id(...) of tableau/structure/node objects: equality is only required between renderings of the '
                  'SAME tableau object',
                  'the unregistered (WIP) doctree TextTabWriter is outside the quantifier (registered formats only)'],
-    min_events={'quick': {'renderings': 30000, 'tableaux': 3000, 'tableaux_valid': 300, 'tableaux_invalid': 500,
-                          'tableaux_premature': 1500, 'determinism_checks': 20000, 'text_oracle_checks': 6000,
-                          'text_branches_checked': 10000, 'text_segments_checked': 40000, 'closed_branch_marks': 5000,
-                          'open_branches_without_mark': 5000,
-                          'nodes_sentence': 50000, 'nodes_world': 15000, 'nodes_designation': 20000, 'nodes_access': 2000,
-                          'nodes_closure': 3000, 'nodes_quit': 40, 'nodes_ellipsis': 2000, 'logics': 57},
+    min_events={'quick': {'renderings': 60000, 'tableaux': 3500, 'tableaux_valid': 200, 'tableaux_invalid': 1000,
+                          'tableaux_premature': 1800, 'determinism_checks': 40000, 'text_oracle_checks': 7000,
+                          'text_branches_checked': 15000, 'text_segments_checked': 60000, 'closed_branch_marks': 4000,
+                          'open_branches_without_mark': 10000,
+                          'nodes_sentence': 25000, 'nodes_world': 18000, 'nodes_designation': 22000, 'nodes_access': 1900,
+                          'nodes_closure': 1900, 'nodes_quit': 150, 'nodes_ellipsis': 1600, 'logics': 57},
                 'thorough': {'renderings': 800000, 'tableaux': 50000, 'tableaux_valid': 8000, 'tableaux_invalid': 15000,
                              'tableaux_premature': 12000, 'determinism_checks': 500000, 'text_oracle_checks': 150000,
                              'text_branches_checked': 400000, 'text_segments_checked': 1000000, 'closed_branch_marks': 150000,
